@@ -100,7 +100,10 @@ func cmdVerify(args []string) {
 	workers := fs.Int("workers", 3, "parallel solver processes")
 	full := fs.Bool("full", false, "use the full solver portfolio (default: light hedge)")
 	doReplay := fs.Bool("replay", false, "try to replay failed obligations on the real code")
+	only := fs.String("only", "", "regexp on obligation names: discharge only the matching obligations (development aid)")
+	stream := fs.Bool("stream", false, "print each verdict as soon as it is known")
 	fs.Parse(args)
+	streamVerdicts = *stream
 	t0 := time.Now()
 	P, err := LoadProg(*repo, strings.Split(*pk, ","), "/verif")
 	if err != nil {
@@ -151,6 +154,17 @@ func cmdVerify(args []string) {
 		}
 	}
 	all = append(all, lemmaObligations(P, lemmas)...)
+	if *only != "" {
+		ore := regexp.MustCompile(*only)
+		var sel []*Obligation
+		for _, o := range all {
+			if ore.MatchString(o.Name) {
+				sel = append(sel, o)
+			}
+		}
+		fmt.Printf("-only: %d of %d obligations selected\n", len(sel), len(all))
+		all = sel
+	}
 	t1 := time.Now()
 	hedgeLight = !*full
 	dischargeAll(all, *timeout, false, *workers)
